@@ -377,8 +377,10 @@ var c10StateEvents = map[string][]string{
 	"state_dkg_deals_await_confirmations":                 {"event_dkg_deal_confirm_received", "event_dkg_deal_confirm_canceled_by_error"},
 	"state_dkg_responses_await_confirmations":             {"event_dkg_response_confirm_received", "event_dkg_response_confirm_canceled_by_error"},
 	"state_dkg_master_key_await_confirmations":            {"event_dkg_master_key_confirm_received", "event_dkg_master_key_confirm_canceled_by_error"},
-	"stage_signing_idle":                                  {"event_signing_start"},
-	"state_signing_await_partial_signs":                   {"event_signing_partial_sign_received", "event_signing_partial_sign_error_received"},
+	// signature_reconstruction_failed is not an event of the round's state machines: the node handles it by itself (it is
+	// a participant's report that it could not reconstruct). It names a participant like every other report
+	"stage_signing_idle":                {"event_signing_start", "signature_reconstruction_failed"},
+	"state_signing_await_partial_signs": {"event_signing_partial_sign_received", "event_signing_partial_sign_error_received", "signature_reconstruction_failed"},
 }
 
 // c10Synth builds a well-formed request of the given event type for participant pid. For partial signatures the batch
